@@ -587,6 +587,8 @@ def read_attribution(own, module=None, default=None, own_filter=None):
         if module is not None:
             return module
         head = re.split(r'::|\.|/', str(inst))[0]
+        if head in READ_OBSERVES:
+            return head
         return _TYPE_MODULE.get(head, default)
     mods = [module] if module else sorted(set(_TYPE_MODULE.values()))
     props = dict(own)
